@@ -23,7 +23,7 @@ class Deadline(Exception):
     pass
 
 
-EXPLICIT = ("begin", "await", "task")   # gates that the harness code requests itself, in both replay modes
+EXPLICIT = ("begin", "await", "task", "send")   # gates that the harness code requests itself, in both replay modes
 
 
 class Sched:
